@@ -57,7 +57,22 @@ class FuncInfo:
         return {"function": self.qualname, "file": self.file, "lines": list(self.lines), "sha256_16": self.sha}
 
 
+_FUNC_CACHE: dict = {}
+
+
 def find_function(qualname: str) -> FuncInfo:
+    if qualname not in _FUNC_CACHE:
+        try:
+            _FUNC_CACHE[qualname] = _find_function(qualname)
+        except ExtractError as e:
+            _FUNC_CACHE[qualname] = e
+    r = _FUNC_CACHE[qualname]
+    if isinstance(r, ExtractError):
+        raise r
+    return r
+
+
+def _find_function(qualname: str) -> FuncInfo:
     """qualname like gotranx.schemes.explicit_euler, gotranx.codegen.base.CodeGenerator.rhs,
     gotranx.expressions.build_expression.expr2symbols (nested def)."""
     parts = qualname.split(".")
